@@ -288,6 +288,41 @@ func c14check(orig *types.Project, op c14op) (*types.Project, *core.Violation) {
 			}
 		}
 	}
+	// every service of the result is a service of the receiver, and carries every attribute the operation does not
+	// affect (depends_on may only lose entries under the selection operations)
+	if sf, ok := c14svcFootprint[opClass(op.name)]; ok {
+		before := state.AllServices()
+		for _, set := range []types.Services{res.Services, res.DisabledServices} {
+			for _, n := range sortedKeys(set) {
+				got := set[n]
+				was, ok := before[n]
+				if !ok {
+					return res, &core.Violation{Key: "service-invented:" + opClass(op.name),
+						Msg: fmt.Sprintf("%s: the result has a service %q the receiver does not have", op.name, n)}
+				}
+				gv, wv := reflect.ValueOf(got), reflect.ValueOf(was)
+				for i := 0; i < gv.NumField(); i++ {
+					fn := gv.Type().Field(i).Name
+					if sf[fn] {
+						if fn == "DependsOn" {
+							for d, dep := range got.DependsOn {
+								if w, ok := was.DependsOn[d]; !ok || !reflect.DeepEqual(w, dep) {
+									return res, &core.Violation{Key: "service-field:" + opClass(op.name) + ":DependsOn",
+										Msg: fmt.Sprintf("%s: service %s depends on %s as %+v, which the receiver does not say", op.name, n, d, dep)}
+								}
+							}
+						}
+						continue
+					}
+					if !reflect.DeepEqual(gv.Field(i).Interface(), wv.Field(i).Interface()) {
+						return res, &core.Violation{Key: "service-field:" + opClass(op.name) + ":" + fn,
+							Msg: fmt.Sprintf("%s changed %s of service %s, which the operation does not affect: %s", op.name, fn, n,
+								firstDiff(fmt.Sprintf("%+v", wv.Field(i).Interface()), fmt.Sprintf("%+v", gv.Field(i).Interface())))}
+					}
+				}
+			}
+		}
+	}
 	// (c) writing through the result must not reach the receiver (cheap spot check on labels of every network)
 	// (d) footprint
 	allowed := map[string]bool{}
@@ -306,6 +341,18 @@ func c14check(orig *types.Project, op c14op) (*types.Project, *core.Violation) {
 		}
 	}
 	return res, nil
+}
+
+// c14svcFootprint: per operation, the service attributes it may change in the services it carries over
+var c14svcFootprint = map[string]map[string]bool{
+	"WithProfiles":                    {},
+	"WithServicesEnabled":             {"Environment": true, "EnvFiles": true},
+	"WithServicesDisabled":            {"DependsOn": true},
+	"WithSelectedServices":            {"DependsOn": true},
+	"WithoutUnnecessaryResources":     {},
+	"WithImagesResolved":              {"Image": true},
+	"WithServicesEnvironmentResolved": {"Environment": true, "EnvFiles": true},
+	"WithServicesLabelsResolved":      {"Labels": true, "LabelFiles": true},
 }
 
 func opClass(n string) string {
